@@ -14,6 +14,8 @@ from vlib import doubles
 BASE = ('SNMPv2-SMI', 'SNMPv2-TC', 'SNMPv2-CONF')
 STATUSES = ('compiled', 'untouched', 'failed', 'unprocessed', 'missing', 'borrowed')
 TEXT_FAULTS = ('empty', 'comments', 'truncated', 'lexerr', 'synerr', 'unresolved', 'dupsym')
+# texts that parse and pass the symbol table but cannot be code-generated (semantic defects)
+CODEGEN_FAULTS = ('ghost', 'ghostdefval', 'oidloop', 'oidself')
 # faults that make the *whole file* unusable before any module is registered
 OPTION_NAMES = ('noDeps', 'rebuild', 'dryRun', 'genTexts', 'ignoreErrors', 'writeMibs')
 
@@ -67,6 +69,11 @@ def module_text(mod, imports, src, variant='ok', tag_arc=1, extra_modules=()):
         # an OID valued DEFVAL naming a symbol its (existing or missing) exporter lacks
         text = head + body + ('haunted OBJECT-TYPE SYNTAX OBJECT IDENTIFIER MAX-ACCESS read-only STATUS current '
                               'DESCRIPTION "x" DEFVAL { ghostSym } ::= { %s 9 }\nEND\n' % node_name(mod))
+    elif variant == 'oidloop':
+        # two nodes defined in terms of each other
+        text = head + body + 'loopA OBJECT IDENTIFIER ::= { loopB 1 }\nloopB OBJECT IDENTIFIER ::= { loopA 1 }\nEND\n'
+    elif variant == 'oidself':
+        text = head + body + 'selfish OBJECT IDENTIFIER ::= { selfish 1 }\nEND\n'
     else:
         raise ValueError(variant)
     for em in extra_modules:
@@ -124,6 +131,10 @@ def source_tables(scn):
             extra = [(m, scn['graph'].get(m, []), scn.get('extra_variant', {}).get(m, 'ok')) for m in mods[1:]]
             t[fname] = module_text(lead, scn['graph'].get(lead, []), 's%d' % si, outcome,
                                    tag_arc=si + 1, extra_modules=extra)
+        if si == 0:
+            # a module that also has a file of its own although another file holds it as well
+            for m, variant in scn.get('own_files', {}).items():
+                t[m] = module_text(m, scn['graph'].get(m, []), 's0own', variant, tag_arc=9)
         tables.append(t)
     return tables
 
@@ -172,7 +183,7 @@ def execute(scn, codegen='json', extra_parser=None, around=None):
 # ------------------------------------------------------------------------------ model
 
 def text_ok(outcome):
-    return outcome in ('ok', 'ghost', 'ghostdefval')
+    return outcome == 'ok' or outcome in CODEGEN_FAULTS
 
 
 def model(scn):
@@ -271,7 +282,7 @@ def model(scn):
             o = src.get(m, src.get(parsed[m][1], 'ok'))
         if m in scn['codegen_script']:
             failed[m] = 'codegen'
-        elif o in ('ghost', 'ghostdefval'):
+        elif o in CODEGEN_FAULTS:
             failed[m] = 'codegen-semantic'
         else:
             built[m] = 'compiled'
@@ -517,7 +528,7 @@ def good_copy(scn, si, fname):
     """does source si hold a well-formed copy of file fname?"""
     src = scn['sources'][si]
     key = file_modules(scn, fname)[0]
-    return src.get(key if key in src else fname, 'absent') in ('ok', 'ghost', 'ghostdefval')
+    return src.get(key if key in src else fname, 'absent') in ('ok',) + CODEGEN_FAULTS
 
 
 def served_text(scn, si, fname):
